@@ -193,6 +193,24 @@ class Exhaust:
         for bi, j, s in agg_sites(b, r'^std::result::Result$', 'Ok'):
             if s['lhs']['l'] == 0 and not place_proj(s['lhs']):
                 out.append((bi, 'Ok(..)'))
+        # `_0 = move r` where r was built as Ok(..) (the result of a spliced helper handed on unchanged)
+        for bi, j, s in b.assigns():
+            if s['lhs']['l'] == 0 and not place_proj(s['lhs']) and s['rv']['k'] == 'use':
+                seen_ = set()
+                work_ = [op_place(s['rv']['op'])]
+                while work_:
+                    pl_ = work_.pop()
+                    if pl_ is None or place_proj(pl_) or pl_['l'] in seen_:
+                        continue
+                    seen_.add(pl_['l'])
+                    for d_ in b.whole_defs(pl_['l']):
+                        if d_[0] not in b.live or d_[2] != 'assign':
+                            continue
+                        rv_ = d_[3]['rv']
+                        if rv_['k'] == 'agg' and rv_.get('adt') == 'std::result::Result' and rv_.get('variant') == 'Ok':
+                            out.append((d_[0], 'Ok(..) via local'))
+                        elif rv_['k'] == 'use':
+                            work_.append(op_place(rv_['op']))
         # tail calls whose result is returned as is
         for bi, t in b.calls():
             if t['dest']['l'] == 0 and not place_proj(t['dest']):
